@@ -157,6 +157,8 @@ m("nul_check_removed", ["C19"], "src/dir.rs",
   "    if memchr::memchr(0, path.as_bytes()).is_some() {\n        return Err(\"path contains NUL byte\");\n    }\n    if path.as_bytes().first()", "    if path.as_bytes().first()")
 m("gz_directory_accepted", ["C19"], "src/dir.rs",
   "                        if !metadata.is_dir() {", "                        if metadata.is_dir() || !metadata.is_dir() {")
+m("gz_probe_enametoolong_returned", ["C19"], "src/dir.rs",
+  "                    Err(ref e) if e.raw_os_error() == Some(libc::ENAMETOOLONG) => {}\n", "", note="reverts fix 8c7d11e")
 m("vary_only_when_gzipped", ["C19"], "src/dir.rs",
   "        if self.auto_gzip {\n            hdrs.insert(header::VARY", "        if self.is_gzipped {\n            hdrs.insert(header::VARY")
 m("gz_lookup_ignores_auto_gzip", ["C19"], "src/dir.rs",
